@@ -45,6 +45,8 @@ enum Kind {
 #[derive(Clone, Copy, Debug, PartialEq, Eq, PartialOrd, Ord, Serialize, Deserialize)]
 enum Ts {
     Newer,
+    /// Newer by a margin (so that other rows' "newer" timestamps stay below it).
+    NewerFar,
     Older,
     Equal,
     PlusHour,
@@ -105,6 +107,8 @@ struct Sys {
     gossips: u64,
     /// (store row, timestamp, signature verifies) of every announcement ever received.
     meta: BTreeMap<Vec<u8>, (RowKey, u64, bool)>,
+    /// Peers whose delivery made the announcement appear in the store.
+    stored_from: BTreeMap<Vec<u8>, BTreeSet<NodeId>>,
 }
 
 impl Sys {
@@ -145,6 +149,7 @@ impl Sys {
             row_relayers: BTreeMap::new(),
             gossips: 0,
             meta: BTreeMap::new(),
+            stored_from: BTreeMap::new(),
         }
     }
 
@@ -205,6 +210,7 @@ impl Sys {
         let now = self.now_ms();
         let t = match ts {
             Ts::Newer => last.map(|l| l + 1).unwrap_or(now - 1000),
+            Ts::NewerFar => last.map(|l| l + 10).unwrap_or(now - 990),
             Ts::Older => last? - 1,
             Ts::Equal => last?,
             Ts::PlusHour => now + HOUR_MS,
@@ -261,8 +267,11 @@ impl Sys {
                             ));
                         }
                         if self.delivered_by.get(&id).map(|s| s.contains(&to)).unwrap_or(false) {
+                            // Did this peer's delivery make us store the announcement, or did it
+                            // deliver a copy we ignored (already stored / announcer unknown then)?
+                            let how = if self.stored_from.get(&id).map(|s| s.contains(&to)).unwrap_or(false) { "deliverer-of-the-stored-copy" } else { "deliverer-of-an-ignored-copy" };
                             vs.push(Violation::new(
-                                format!("C10/echo-to-deliverer/{}/{phase}", row_key(&a).1),
+                                format!("C10/echo-to-deliverer/{}/{phase}/{how}", row_key(&a).1),
                                 format!("{} announcement of {} (t={}) was sent to {}, who had delivered that very announcement to us", row_key(&a).1, self.name(&a.node), *a.timestamp(), self.name(&to)),
                                 json!({"ann": short(&id)}),
                             ));
@@ -296,19 +305,23 @@ impl System for Sys {
 
     fn enabled(&self) -> Vec<Ev> {
         let mut v = vec![Ev::Gossip];
+        let store = self.store();
         for (ri, r) in self.relayers.iter().enumerate() {
             if !self.connected.contains(&r.id) {
                 continue;
             }
             for announcer in 0..3usize {
                 for kind in [Kind::Node, Kind::Inv, Kind::Refs] {
-                    for ts in [Ts::Newer, Ts::Older, Ts::Equal, Ts::PlusHour, Ts::PlusHourAndOne] {
+                    for ts in [Ts::Newer, Ts::NewerFar, Ts::Older, Ts::Equal, Ts::PlusHour, Ts::PlusHourAndOne] {
                         for sig in [Sig::Valid, Sig::ForgedOtherKey, Sig::ValidOverOtherBytes] {
                             // The local node's own announcements: only the plain variant.
                             if announcer == 2 && (ts != Ts::Newer || sig != Sig::Valid) {
                                 continue;
                             }
-                            if self.build(announcer, kind, ts, sig).is_some() {
+                            // `older` / `equal` need a stored row to relate to (cheap test; the
+                            // announcement itself is only built and signed when the event is applied).
+                            let key: RowKey = (self.announcer(announcer).0.to_string(), match kind { Kind::Node => "node", Kind::Inv => "inventory", Kind::Refs => "refs" });
+                            if !matches!(ts, Ts::Older | Ts::Equal) || self.stored_ts(&store, &key).is_some() {
                                 v.push(Ev::Recv { relayer: ri, announcer, kind, ts, sig });
                             }
                         }
@@ -322,7 +335,7 @@ impl System for Sys {
     fn is_deviation(&self, ev: &Ev) -> bool {
         match ev {
             Ev::Gossip => false,
-            Ev::Recv { ts, sig, announcer, .. } => *ts != Ts::Newer || *sig != Sig::Valid || *announcer == 2,
+            Ev::Recv { ts, sig, announcer, .. } => !matches!(ts, Ts::Newer | Ts::NewerFar) || *sig != Sig::Valid || *announcer == 2,
         }
     }
 
@@ -404,6 +417,7 @@ impl System for Sys {
                     }
                 }
                 if stored_now {
+                    self.stored_from.entry(id.clone()).or_default().insert(from.id);
                     self.row_relayers.entry(key.clone()).or_default().insert(from.id);
                     if *kind == Kind::Inv {
                         self.pending.insert(id.clone());
@@ -446,6 +460,7 @@ impl System for Sys {
             "accepted": self.accepted_ok.iter().filter(|k| relevant(k)).map(|k| short(k)).collect::<Vec<_>>(),
             "pending": self.pending.iter().map(|k| short(k)).collect::<Vec<_>>(),
             "row_relayers": self.row_relayers.iter().map(|(k, v)| (format!("{}:{}", self.name(&NodeId::from_str_lossy(&k.0)), k.1), v.iter().map(|n| self.name(n)).collect::<Vec<_>>())).collect::<Vec<_>>(),
+            "stored_from": self.stored_from.iter().filter(|(k, _)| relevant(k)).map(|(k, v)| (short(k), v.iter().map(|n| self.name(n)).collect::<Vec<_>>())).collect::<Vec<_>>(),
             "gossips": self.gossips,
             "fetching": svc::fetching_key(&self.svc).len(),
         });
@@ -470,13 +485,50 @@ fn main() {
     if let Some(w) = ctx.replay_witness() {
         ctx.finish_replay(explore::replay::<Sys>("C10", Sys::new, &w));
     }
-    let (depth, devs) = if thorough { (5, 2) } else { (4, 1) };
-    let res = explore::explore("C10", Sys::new, Bounds::new(depth, devs).wall_secs(if thorough { 1500 } else { 50 }));
-    let cov = res.coverage(
+    if ctx.extra_args.iter().any(|a| a == "--bench") {
+        let t = std::time::Instant::now();
+        for _ in 0..200 {
+            let _ = svc::build(svc::Build::default());
+        }
+        eprintln!("svc::build: {:?} each", t.elapsed() / 200);
+        let t = std::time::Instant::now();
+        for _ in 0..200 {
+            let _ = Sys::new();
+        }
+        eprintln!("Sys::new: {:?} each", t.elapsed() / 200);
+        let s = Sys::new();
+        let t = std::time::Instant::now();
+        for _ in 0..200 {
+            let _ = s.canon();
+        }
+        eprintln!("canon: {:?} each", t.elapsed() / 200);
+        let t = std::time::Instant::now();
+        for _ in 0..200 {
+            let _ = s.enabled();
+        }
+        eprintln!("enabled: {:?} each", t.elapsed() / 200);
+        let mut s = Sys::new();
+        let evs = s.enabled();
+        let t = std::time::Instant::now();
+        for e in evs.iter().take(100) {
+            let _ = s.step(e);
+        }
+        eprintln!("step: {:?} each", t.elapsed() / 100);
+        return;
+    }
+    // Two passes (iterated deviation bound): deep without deviations (only fresh, valid
+    // announcements and gossip ticks — relay bookkeeping needs depth), shallower with deviations.
+    let (d0, d1, k1) = if thorough { (5, 3, 2) } else { (3, 2, 1) };
+    let deep = explore::explore("C10", Sys::new, Bounds::new(d0, 0).wall_secs(if thorough { 900 } else { 28 }));
+    let mut res = explore::explore("C10", Sys::new, Bounds::new(d1, k1).wall_secs(if thorough { 900 } else { 25 }));
+    res.violations.merge(deep.violations.clone());
+    let deep_cov = deep.coverage("pass 1: deviation budget 0");
+    let mut cov = res.coverage(
         "BFS over histories of {Recv(relayer ∈ {P1,P2}, announcer ∈ {unknown X, P1, local}, kind ∈ {node, inventory, refs}, timestamp ∈ {newer, older, equal, now+1h, now+1h+1ms} \
          relative to the stored row, signature ∈ {valid, forged by another key, valid over other bytes}), Gossip tick} on a real relaying Service with three connected, subscribed peers; \
          deviations = every Recv other than (newer, valid) by a remote announcer; the store is dumped and every written message inspected after every step",
     );
+    cov.insert("pass_without_deviations".into(), serde_json::Value::Object(deep_cov));
     ctx.finish(
         cov,
         &[
